@@ -8,6 +8,7 @@ def to_replay(fl):
 
 def run(ctx):
     findings = load_findings('C07')
+    translate(ctx, ['consts'])
     lean_props(ctx)
     if not cargo_harness(ctx, ['h_lru']): return
     n = 1500 if ctx.quick() else 40000
